@@ -114,7 +114,7 @@ structure Var where
   defUnit : DUnit
   default : Val
   rule : SRule
-deriving Repr, Inhabited
+deriving Repr, Inhabited, DecidableEq
 
 structure Sys where
   personKey : String
@@ -811,6 +811,14 @@ def periodLe (p q : Period) : Bool :=
   decide (unitWeight p.unit < unitWeight q.unit) ||
     (decide (unitWeight p.unit = unitWeight q.unit) && decide (p.size ≤ q.size))
 
+/-- stable insertion: `x` goes before the first element it is not greater than -/
+def insertBy {α : Type} (le : α → α → Bool) (x : α) : List α → List α
+  | [] => [x]
+  | y :: ys => if le x y then x :: y :: ys else y :: insertBy le x ys
+
+/-- Python's `sorted(..., key=...)` (stable): insertion sort from the right -/
+def sortBy {α : Type} (le : α → α → Bool) (l : List α) : List α := l.foldr (insertBy le) []
+
 /-- variables of the buffer in first-use order -/
 def dedup : List String → List String
   | [] => []
@@ -828,7 +836,7 @@ def sortedPeriods (buf : Buffer) (v : String) : R (List Period) :=
       | .ok p => (.ok p : R Period)
       | .error _ => .error .other) (varKeys buf v) with
   | .error e => .error e
-  | .ok ps => .ok (ps.mergeSort periodLe)
+  | .ok ps => .ok (sortBy periodLe ps)
 
 /-- `values = buffer[str(period)]; array = tile(values, count // len(values)); set_input` -/
 def callStep (si : SetInput) (buf : Buffer) (var : Var) (count : Nat) (store : Store) (q : Period) : R Store :=
